@@ -933,7 +933,7 @@ def _check_givens(x1, x2):
     w = G.T @ v
     want = np.zeros(8)
     want[0] = t
-    if t > 1e-15 and not np.allclose(w, want, atol=1e-12 * max(1.0, t)):
+    if t > 1e-15 and not np.allclose(w, want, rtol=0, atol=1e-10 * t):          # relative to the pair's own size: tiny pairs (above eps) are rotated exactly like large ones
         return {"what": "ggivens does not map the pair to (norm, 0)", "got": w, "want": want}
     M = np.zeros((2, 2, 4))
     for k in range(4):
@@ -1049,6 +1049,9 @@ def bounded(rep: Report, tier, seed):
     pairs = []
     for sc1, sc2 in itertools.product((1e-8, 1e-3, 1.0, 1e4), repeat=2):
         pairs.append((rng.standard_normal(4) * sc1, rng.standard_normal(4) * sc2))
+    for sc in (1e-10, 1e-13, 3e-9):          # tiny pairs well above eps (the identity shortcut is for norms <= eps only)
+        pairs.append((rng.standard_normal(4) * sc, rng.standard_normal(4) * sc))
+        pairs.append((np.array([sc, 0, 0, 0]), np.array([0, 0, sc, 0])))
     pairs += [(np.zeros(4), rng.standard_normal(4)), (rng.standard_normal(4), np.zeros(4)), (np.zeros(4), np.zeros(4)), (np.full(4, 1e-18), np.full(4, -1e-18)),
               (np.array([1.0, 0, 0, 0]), np.array([0, 0, 0, 1.0])), (np.array([0, 2.0, 0, 0]), np.array([0, 2.0, 0, 0])), (np.array([3.0, 0, 0, 0]), np.array([4.0, 0, 0, 0]))]
     for i, (x1, x2) in enumerate(pairs):
